@@ -223,7 +223,11 @@ func (c09) Run(raw json.RawMessage) Result {
 		default:
 			e2e = false
 		}
-		if e2e {
+		if c0xTimedOut {
+			c0xTimedOut = false
+			e2e = true
+			o.E2E = "timeout (not counted)"
+		} else if e2e {
 			o.E2E = "agrees"
 		} else {
 			o.E2E = "differs"
